@@ -56,8 +56,11 @@ VARIABLES
 pvars == <<lsn, att, natt, ep, synSeen, accd, flow, drops, premOk, idle, ok>>
 
 NoAtt == [st |-> "none", port |-> 0, sawUp |-> FALSE, sawDown |-> FALSE, full |-> FALSE]
-NoEp  == [h |-> "none", wr |-> <<>>, rd |-> <<>>, eof |-> FALSE, wfin |-> "open"]
-OkAll == [caps |-> TRUE, mss |-> TRUE, wnd |-> TRUE, udp |-> TRUE, accept |-> TRUE,
+\* pend = bytes this endpoint wrote (accepted by try_write) that its peer has not read yet,
+\* nw = how many it wrote in all.  Bytes are retired from pend as the peer reads them, so
+\* "the bytes read are a prefix of the bytes written" is checked read by read (ok.prefix).
+NoEp  == [h |-> "none", pend |-> <<>>, nw |-> 0, eof |-> FALSE, wfin |-> "open"]
+OkAll == [prefix |-> TRUE, caps |-> TRUE, mss |-> TRUE, wnd |-> TRUE, udp |-> TRUE, accept |-> TRUE,
           conn |-> TRUE, abort |-> TRUE, prog |-> TRUE, cpend |-> TRUE, offer |-> TRUE, tab |-> TRUE]
 
 PInit ==
@@ -223,7 +226,8 @@ PeerClosed(e) == ep[Peer(e)].wfin = "shut" \/ ep[Peer(e)].h = "dropped"
 P_Write(e, data, res, k, obs) ==
     /\ e \in EPs /\ ep[e].h = "held"
     /\ (res # "ok" => k = 0)
-    /\ /\ ep' = [ep EXCEPT ![e].wr = @ \o SubSeq(data, 1, Min2(k, Len(data)))]
+    /\ /\ ep' = [ep EXCEPT ![e].pend = @ \o SubSeq(data, 1, Min2(k, Len(data))),
+                             ![e].nw = @ + Min2(k, Len(data))]
        /\ idle' = IF res = "wouldblock" THEN idle ELSE 0
        /\ ok' = [ok EXCEPT
              !.caps = @ /\ CapsIn(obs) /\ k <= Len(data),
@@ -239,12 +243,17 @@ P_Write(e, data, res, k, obs) ==
 P_Read(e, n, res, bytes, obs) ==
     /\ e \in EPs /\ ep[e].h = "held"
     /\ (res # "data" => bytes = <<>>)
-    /\ LET unread == ep[e].rd # ep[Peer(e)].wr
+    /\ LET q == ep[Peer(e)].pend
+           good == IsPre(bytes, q)
+           unread == q # <<>>
        IN
-       /\ ep' = [ep EXCEPT ![e].rd = @ \o bytes, ![e].eof = @ \/ res = "eof"]
+       /\ ep' = [ep EXCEPT ![Peer(e)].pend = IF good THEN SubSeq(q, Len(bytes) + 1, Len(q)) ELSE q,
+                            ![e].eof = @ \/ res = "eof"]
        /\ idle' = IF res = "wouldblock" THEN idle ELSE 0
        /\ ok' = [ok EXCEPT
              !.caps = @ /\ CapsIn(obs) /\ Len(bytes) <= n,
+             \* C06 safety half: what a read returns is the next bytes the peer wrote, in order, unaltered
+             !.prefix = @ /\ good,
              !.abort = @ /\ AbortOk(e, res),
              \* C06 "every written byte and then end-of-file is delivered ... and
              \* neither side is left waiting forever"
@@ -363,11 +372,11 @@ P_Reset ==
 
 \* C06 safety half: "the bytes read are always a prefix of the bytes written,
 \* in order and unaltered, under every combination of drops, delays, reordering"
-PrefixInv == \A e \in EPs : IsPre(ep[e].rd, ep[Peer(e)].wr)
+PrefixInv == ok.prefix
 \* C06: "when the retransmit budget is exhausted the failure surfaces as an
 \* error, never as silent loss": end-of-file is only ever reported after every
 \* accepted byte, and only once the writer closed
-EofOnlyAtEnd == \A e \in EPs : ep[e].eof => (ep[e].rd = ep[Peer(e)].wr /\ PeerClosed(e))
+EofOnlyAtEnd == \A e \in EPs : ep[e].eof => (ep[Peer(e)].pend = <<>> /\ PeerClosed(e))
 \* C06 liveness half (only under the premise)
 NoSpuriousAbort == ok.abort
 BoundedProgress == ok.prog
